@@ -2,6 +2,7 @@ import FuModel.Base.Wire
 import FuModel.Find.Run
 import FuModel.Spec.RunRef
 import FuModel.Find.StartPoints
+import FuModel.Xargs.Read
 
 /-!
 Driver verb `find`: a whole run of find on an observed world.
@@ -190,6 +191,39 @@ def predFindSet (req obs : List String) : Option Bool :=
     match parseObs obs with
     | some (st, _, out) => pure (FuModel.Find.RunRef.predFindSet r.follow r.roots r.args st out)
     | none => pure false
+  | _ => none
+
+/-- `pipe0`: find's output through `xargs -0`: the arguments delivered, in order -/
+def handlePipe (verb : String) (args : List String) : Option String :=
+  match verb with
+  | "pipe0" => do
+    let r ← parseReq args
+    match run r.follow r.roots r.args with
+    | some res =>
+      let delivered := FuModel.Xargs.bdAll 0 res.out
+      pure s!"fst={res.ret} xst=0 args={joinList (delivered.map hexOfBytes)}"
+    | none => pure "fst=1 xst=0 args=."
+  | _ => none
+
+/-- C07: printed bytes equal the reference's; through the pipe every printed path is delivered
+    once, in order, unmodified -/
+def predC07 (req obs : List String) : Option Bool :=
+  match req with
+  | "find" :: _ => predFind req obs
+  | "pipe0" :: rest => do
+    let r ← parseReq rest
+    match obs with
+    | [fst, xst, as] => do
+      let fst ← (fst.dropPrefix? "fst=").bind (·.toString.toNat?)
+      let xst ← (xst.dropPrefix? "xst=").bind (·.toString.toNat?)
+      let as ← (as.dropPrefix? "args=").bind (bytesListOfHex ·.toString)
+      match FuModel.Find.RunRef.refRun r.follow r.roots r.args with
+      | some ref =>
+        -- the reference output is a sequence of NUL-terminated paths
+        let paths := (ref.out.splitOn 0).dropLast
+        pure (as == paths && xst == 0 && ((fst == 0) == (ref.ret == 0)))
+      | none => pure (fst != 0)
+    | _ => pure false
   | _ => none
 
 /-- reference reading of a -files0-from file: the NUL-separated names, a final NUL optional,
